@@ -99,7 +99,8 @@ ReqOf(ln) == [cmd |-> ln.q.cmd, name |-> ln.q.name, lname |-> ln.q.lname, hasnam
               sequential |-> ln.q.sequential, raw |-> ln.q.raw, start |-> ln.q.start, addnp |-> ln.q.addnp,
               addG |-> ln.q.addGp, addW |-> ln.q.addWt, addsing |-> ln.q.addsing, nopts |-> ln.q.nopts, pattern |-> ln.q.pattern,
               opts |-> ln.q.opts, matches |-> ln.q.matches, file |-> FileOf(ln.q),
-              plan |-> IF ln.q.cmd = "reloadconfig" THEN PlanOf(l + 1) ELSE [chg |-> <<>>, del |-> <<>>, add |-> <<>>]]
+              plan |-> IF ln.q.cmd = "reloadconfig" THEN PlanOf(l + 1) ELSE [chg |-> <<>>, del |-> <<>>, add |-> <<>>],
+              rovalid |-> ln.q.rovalid]
 
 Tk(ms) == (ms + 50) \div 100
 
